@@ -74,6 +74,57 @@ func c15Nil(c *core.Ctx) {
 		c.Floor("SubTxList-readers", n, 4)
 	})
 
+	c.Run("off-curve-keys", func() {
+		// crypto.ToECDSAPub returns a key with nil coordinates for bytes that are not a curve point (elliptic.Unmarshal's contract); the
+		// repository's own callers test `.X == nil` — every caller must, before the key is handed on
+		te := c.FuncObj("common/crypto.ToECDSAPub")
+		n := 0
+		for _, site := range c.CallSites(te) {
+			if isTestHelper(c, site.Caller) || site.Instr.Value() == nil {
+				continue
+			}
+			n++
+			v := site.Instr.Value()
+			var coordTests []core.Test
+			var uses []ssa.Instruction
+			for x := range core.Derived(v) {
+				if x.Referrers() == nil {
+					continue
+				}
+				for _, r := range *x.Referrers() {
+					switch u := r.(type) {
+					case *ssa.FieldAddr:
+						if f := core.FieldOf(u); f != nil && (f.Name() == "X" || f.Name() == "Y") && u.Referrers() != nil {
+							for _, ld := range *u.Referrers() {
+								if lv, isLd := ld.(*ssa.UnOp); isLd {
+									coordTests = append(coordTests, core.TestsOf(lv, core.IsNil)...)
+								}
+							}
+						}
+					case *ssa.DebugRef, *ssa.Store:
+					case *ssa.BinOp:
+					default:
+						uses = append(uses, r)
+					}
+				}
+			}
+			ok := len(coordTests) > 0
+			for _, u := range uses {
+				guarded := false
+				for _, t := range coordTests {
+					if t.If.Block().Dominates(u.Block()) && t.If.Block() != u.Block() && !core.CanReach(t.Fail, u.Block(), t.If.Block()) {
+						guarded = true
+					}
+				}
+				if !guarded {
+					ok = false
+				}
+			}
+			c.Check("off-curve-key/ToECDSAPub@"+shortFn(site.Caller), "guarded-action", ok && len(uses) >= 0, site.Instr.Pos(), "%s must reject a key whose coordinates are nil (bytes that are not a curve point) before it hands the key on (%d uses, %d coordinate tests)", shortFn(site.Caller), len(uses), len(coordTests))
+		}
+		c.Floor("ToECDSAPub-call-sites", n, 2)
+	})
+
 	c.Run("maybe-nil-results", func() {
 		// functions of the network packages with a single pointer result, at least one `return nil` and at least one other return
 		type cand struct {
